@@ -90,6 +90,10 @@ def nuc_p_body(msg):
         n = adsb_spec.NUCP_OF_TC[tc]
         assert o[0] == "ret" and o[1][0] == n, "NUCp category of the type code"
         assert o[1][1] == UNC.NUCp[n]["HPL"] and o[1][2] == UNC.NUCp[n]["RCu"], "HPL / RCu of that category"
+        # the vertical containment bound exists only for GNSS-height position messages (DO-260 version 0: TC20 < 4 m,
+        # TC21 < 15 m); barometric-altitude and surface type codes carry none
+        assert o[1][3] == (4 if tc == 20 else (15 if tc == 21 else None)), \
+            "RCv only for GNSS-height type codes 20 / 21 (4 m / 15 m), None otherwise"
     else:
         assert o == ("raise", "RuntimeError"), "nuc_p rejects non-position type codes (incl. TC19)"
 
